@@ -103,6 +103,20 @@ func c05Check(seq []Tok, text string) (msg string, outcome string) {
 }
 
 func init() {
+	kinds["c05.charset"] = func(raw json.RawMessage) string {
+		var cs struct {
+			Text string `json:"text"`
+			Want bool   `json:"want"`
+			Why  string `json:"why"`
+		}
+		if err := json.Unmarshal(raw, &cs); err != nil {
+			return "bad case"
+		}
+		if got := Valid1(cs.Text); got >= 0 && (got == 1) != cs.Want {
+			return fmt.Sprintf("ValidateLicenses([%q]) = %v, expected %v: %s", cs.Text, got == 1, cs.Want, cs.Why)
+		}
+		return ""
+	}
 	kinds["c05.seq"] = func(raw json.RawMessage) string {
 		var cs c05Case
 		if err := json.Unmarshal(raw, &cs); err != nil {
@@ -224,6 +238,71 @@ func c05Run(c *Ctx) {
 	}
 	c05Long(c)
 	c05AllIDs(c)
+	c05Charset(c)
+}
+
+// c05Charset: an identifier is 1*(ALPHA / DIGIT / "-" / ".") — ASCII only. Every byte value and a set
+// of non-ASCII letters / digits (including ones that case-fold onto ASCII letters) is put inside the
+// id of a LicenseRef, a DocumentRef and a listed license id.
+func c05Charset(c *Ctx) {
+	if !c.Mine(0) {
+		return
+	}
+	okByte := func(b byte) bool {
+		return (b >= 'a' && b <= 'z') || (b >= 'A' && b <= 'Z') || (b >= '0' && b <= '9') || b == '-' || b == '.'
+	}
+	judge := func(text string, want bool, why string) {
+		if !c.FirstTime("charset\x00"+text) || !c.Begin(text) {
+			return
+		}
+		got := Valid1(text)
+		c.Inc("states")
+		c.Inc("transitions")
+		c.Inc("evaluations")
+		c.Inc("charset_cases")
+		if got < 0 {
+			c.Inc("skipped_panic")
+			return
+		}
+		c.Inc("traces")
+		c.Inc("nontrivial")
+		c.Outcome(fmt.Sprintf("charset:valid=%v", got == 1))
+		if (got == 1) != want {
+			c.Report(Violation{Kind: "c05.charset", Class: "charset", Key: "charset:" + text, Size: len(text),
+				Msg:  fmt.Sprintf("ValidateLicenses([%q]) = %v, expected %v: %s", text, got == 1, want, why),
+				Case: mustJSON(map[string]any{"text": text, "want": want, "why": why})})
+		}
+	}
+	for b := 0; b < 256; b++ {
+		ch := string([]byte{byte(b)})
+		valid := okByte(byte(b))
+		judge("LicenseRef-a"+ch+"b", valid, "identifier characters are ASCII letters, digits, '-' and '.'")
+		judge("DocumentRef-a"+ch+"b:LicenseRef-x", valid, "identifier characters are ASCII letters, digits, '-' and '.'")
+		if b >= 0x80 {
+			judge("MIT"+ch, false, "a non-ASCII byte cannot be part of or follow a license id")
+			judge(ch+"MIT", false, "a non-ASCII byte cannot precede a license id")
+		}
+	}
+	for _, r := range []string{"\u00e9", "\u03b1", "\u017f", "\u212a", "\u0663", "\uff21", "\u0131", "\u0130", "\u01c5", "\u00a0", "\u2003"} {
+		judge("LicenseRef-caf"+r, false, "non-ASCII letters and digits are not identifier characters")
+		judge("LicenseRef-"+r, false, "non-ASCII letters and digits are not identifier characters")
+		judge("DocumentRef-"+r+":LicenseRef-x", false, "non-ASCII letters and digits are not identifier characters")
+		judge("MIT AND LicenseRef-x"+r+"y", false, "non-ASCII letters and digits are not identifier characters")
+	}
+	// spellings that only equal a listed id under Unicode case folding (ſ folds to s, the Kelvin sign to k)
+	folds := map[string]string{"s": "\u017f", "S": "\u017f", "k": "\u212a", "K": "\u212a"} // LATIN SMALL LETTER LONG S, KELVIN SIGN
+	t := T()
+	for _, id := range append(t.AllLicenseIDs(), t.Exceptions...) {
+		for i := 0; i < len(id); i++ {
+			if f, ok := folds[id[i:i+1]]; ok {
+				v := id[:i] + f + id[i+1:]
+				judge(v, false, "only ASCII case variants of a listed id are the listed id")
+				judge("MIT WITH "+v, false, "only ASCII case variants of a listed id are the listed id")
+				break
+			}
+		}
+	}
+	c.Bound("charset", "every byte value inside LicenseRef / DocumentRef ids, non-ASCII bytes next to a license id, 11 non-ASCII letters/digits/spaces, Unicode-fold look-alikes of every listed id")
 }
 
 // c05AllIDs: the token alphabet holds one representative per kind of id; here every listed id
